@@ -30,7 +30,7 @@ RULE = ("one case = one target set built from points, rectangles and holes; "
 ASSUMPTIONS = ["core numbers 0..17, chip coordinates 0..255 (others must "
                "raise ValueError)"]
 FLOORS = {"decode_compare": 100, "collapsed_words": 50, "chip_word": 100,
-          "staged_read": 100}
+          "staged_read": 100, "same_dict_again": 100}
 SHARDS = {"quick": 16, "thorough": 48}
 ANCHORS = [("rig.machine_control.regions", "RegionCoreTree.add_core",
             {"collapse": "self.locally_selected[p] = 0x0",
@@ -38,7 +38,7 @@ ANCHORS = [("rig.machine_control.regions", "RegionCoreTree.add_core",
                  "if self.subregions[subregion].add_core(x, y, p):"})]
 
 CLASSES = ["sparse", "aligned", "nearfull", "straddle", "percore", "mixed",
-           "chipword", "invalid", "staged", "manycores"]
+           "chipword", "invalid", "staged", "manycores", "reuse"]
 
 
 def plan(tier):
@@ -81,6 +81,21 @@ def gen(cls, idx, rng, tier):
             stages.append([op for j, op in enumerate(ops_all) if j % k == i
                            and op[0] != "hole"])
         return dict(kind="staged", stages=stages,
+                    shuffle=rng.randrange(1 << 30))
+    if cls == "reuse":
+        # one dictionary object handed in again and again, edited in place
+        # by its owner between the calls (what a caller's own retry loop
+        # does when it strikes loaded cores off the per-chip sets)
+        base = gen(rng.choice(["aligned", "nearfull", "percore", "sparse",
+                               "mixed"]), idx, rng, tier)
+        edits = []
+        for _ in range(rng.randint(2, 5)):
+            edits.append(dict(
+                how=rng.choice(["strike", "strike", "swap_chip", "add_core",
+                                "drop_chip", "add_chip", "replace_set",
+                                "nothing"]),
+                r=rng.randrange(1 << 30), between=rng.random() < .25))
+        return dict(kind="reuse", ops=base["ops"], edits=edits,
                     shuffle=rng.randrange(1 << 30))
     if cls == "everything":
         return dict(kind="set", ops=[("rect", 0, 0, 256, 256,
@@ -278,6 +293,51 @@ def run(case, ctx):
             # flood-fill entry point sorts); exactness at every stage is
             judge_pairs(ctx, out, expand(so_far), check_order=False)
             ctx.hit("staged_read")
+        ctx.mark_nontrivial()
+        return "ok"
+    if case["kind"] == "reuse":
+        targets = expand(case["ops"])
+        items = list(targets.items())
+        random.Random(case["shuffle"]).shuffle(items)
+        arg = {xy: set(cs) for xy, cs in items}
+        out = list(R.compress_flood_fill_regions(arg))
+        judge_pairs(ctx, out, {xy: set(cs) for xy, cs in arg.items()})
+        for e in case["edits"]:
+            r = random.Random(e["r"])
+            keys = sorted(arg)
+            if not keys:
+                break
+            how = e["how"]
+            if how == "strike":
+                # cores struck off some chips; the number of chips stays
+                for xy in r.sample(keys, max(1, len(keys) // 3)):
+                    if len(arg[xy]) > 1:
+                        arg[xy].discard(r.choice(sorted(arg[xy])))
+            elif how == "swap_chip":
+                xy = r.choice(keys)
+                new = (r.randrange(256), r.randrange(256))
+                if new not in arg:
+                    arg[new] = arg.pop(xy)
+            elif how == "add_core":
+                arg[r.choice(keys)].add(r.randrange(18))
+            elif how == "drop_chip":
+                if len(keys) > 1:
+                    del arg[r.choice(keys)]
+            elif how == "add_chip":
+                arg[(r.randrange(256), r.randrange(256))] = {r.randrange(18)}
+            elif how == "replace_set":
+                arg[r.choice(keys)] = set(r.sample(range(18), r.randint(1, 4)))
+            if e["between"]:
+                # somebody else's call in between
+                R.compress_flood_fill_regions({(1, 2): {3}})
+            want = {xy: set(cs) for xy, cs in arg.items() if cs}
+            out = list(R.compress_flood_fill_regions(arg))
+            ctx.hit("same_dict_again")
+            judge_pairs(ctx, out, want)
+            check({xy: cs for xy, cs in arg.items() if cs} == want,
+                  "argument-mutated", "targets dict changed")
+            # the result belongs to the caller
+            del out[:]
         ctx.mark_nontrivial()
         return "ok"
     targets = expand(case["ops"])
